@@ -274,6 +274,10 @@ def gen_subtree_query(rng, world, view):
             else:
                 g['required'] = [{rng.choice(ts)}]
         q['groups'][name] = g
+    if not any(g['resources'] for g in q['groups'].values()):
+        # (a request needs resources in at least one group)
+        q['groups'][rng.choice(names)]['resources'] = gen_resources(
+            rng, world.classes, 1)
     q['same_subtree'].append(set(names))
     if rng.random() < 0.7:
         q['same_subtree'].append(set(rng.sample(names, 2)))
